@@ -40,6 +40,14 @@ def run(ctx):
     ctx.cov["random_large_buffers"] = n
     if p.returncode != 0:
         core.report(ctx, "random large buffers: implementation differs from the validated reference: " + p.stdout[-600:], {"kind": "output", "stdout": p.stdout[-3000:]})
+    # lengths around 4 GiB (thorough: 8 GiB) in sparse memory: the reference crosses the zero runs with the power of the
+    # one-zero-byte operator and is first compared with the plain bitwise loop
+    p = subprocess.run([prog, "crcbig", "0" if ctx.quick() else "1"], stdout=subprocess.PIPE, stderr=subprocess.PIPE, text=True, timeout=3000)
+    ctx.cov["huge_buffers"] = 6 if ctx.quick() else 10
+    if p.returncode == 1:
+        core.report(ctx, "buffers of 4 GiB and more: implementation differs from the reference: " + p.stdout[-600:], {"kind": "output", "stdout": p.stdout[-3000:]})
+    elif p.returncode != 0:
+        ctx.notes.append("buffers of 4 GiB and more were not checked: " + (p.stdout + p.stderr)[-200:])
     if not sse:
         ctx.notes.append("this CPU has no SSE4.2: my_crc32c_sse42 was not exercised")
     cov = {"evaluations": nres + n * (3 if sse else 2), "distinct_nontrivial": ncrc, "sse42_exercised": sse, "traces_validated_against_impl": ctx.cov.get("traces_validated_against_impl", 0)}
